@@ -359,6 +359,8 @@ def run(ctx):
         share(ctx, "C19", ("R19.1",), "R03.7", "env::get obligations shared with C19", 4)
         # the first-ranked source is available for every value: a well-formed --name=value token is never rejected for its value
         share(ctx, "C02", ("R02.4",), "R03.7", "token-syntax obligations shared with C02", 1)
+        ctx.rule("R03.9", "the declared default is what the lowest-ranked source delivers: nothing on the usage path rewrites it (R15.11 re-evaluated)")
+        share(ctx, "C15", ("R15.11",), "R03.9", "usage-writes-nothing obligations shared with C15", 1)
     # ---- R03.8: the variable that is looked up is the variable that was bound: env_ holds the setter's argument verbatim
     ctx.rule("R03.8", "every write of base::env_ stores a copy-only carrier of the writing function's own parameter (or the same member of another object): variable names are case-sensitive, a normalised name is a different variable")
     ENVF = NS + "base::env_"
